@@ -34,6 +34,9 @@ def _header(eol, spaces, lower, fold, dup, extra, framing_field):
         lines.append(b'X-Empty:')
     if framing_field:
         lines.append(framing_field)
+    if fold:
+        lines.append(b'X-Tail:' + sp + b't')
+        lines.append(b' \t')                           # obs-fold continuation carrying only white space: not the end of the header block
     return eol.join(lines) + eol + eol
 
 
